@@ -17,6 +17,11 @@ def families(quick):
         [[A], [A], [A]],                  # three occurrences: value-sensitive fold
         [[A, b"ab"], [b"a\xff", B]],      # prefixes / 0xff
     ]
+    # seven sources whose first keys hide small keys under larger ones in insertion order (heap sift-up)
+    fam.append([[A], [B], [b"x"], [C], [b"y"], [b"z"], [b"d"]])
+    if not quick:
+        fam.append([[b"g"], [b"f"], [b"e"], [b"d"], [C], [B], [A]])
+        fam.append([[A, b"x"], [B], [b"x"], [C], [b"y"], [b"z"], [b"d"], [A]])
     if not quick:
         fam += [[[A, B, C], [B]], [[A, B], [B, C], [A, C]], [[E, A, B], [E, B], [C]], [[B], [A, B, C], []],
                 [[A, b"aa", b"ab"], [b"aa"]], [[C], [B], [A]], [[A, B, C, b"d"]], [[A, B], [A, B], [A, B]]]
